@@ -216,6 +216,42 @@ def audit_file(path, rel, calls=()):
     return sites
 
 
+def struct_fields(path, name):
+    """field names of `struct <name>` in declaration order (= drop order); None when the struct is not found.
+    Used by the static tie for properties whose model assumes a destruction order (deregister before close)."""
+    try:
+        src = strip_comments(open(path).read())
+    except OSError:
+        return None
+    m = re.search(r'\bstruct\s+' + re.escape(name) + r'\b[^;{(]*\{', src)
+    if not m:
+        return None
+    depth, i = 1, m.end()
+    while i < len(src) and depth:
+        depth += {'{': 1, '}': -1}.get(src[i], 0)
+        i += 1
+    body = src[m.end():i - 1]
+    out, depth, cur = [], 0, ''
+    for ch in body:
+        if ch in '<([{':
+            depth += 1
+        elif ch in '>)]}':
+            depth -= 1
+        if ch == ',' and depth == 0:
+            out.append(cur)
+            cur = ''
+        else:
+            cur += ch
+    out.append(cur)
+    names = []
+    for f in out:
+        f = re.sub(r'#\[[^\]]*\]', '', f)
+        mm = re.match(r'\s*(?:pub(?:\([^)]*\))?\s+)?([A-Za-z_][A-Za-z0-9_]*)\s*:', f)
+        if mm:
+            names.append(mm.group(1))
+    return names
+
+
 def audit(repo="/repo", calls=()):
     out = []
     for sub in ("src", "may_queue/src"):
